@@ -41,6 +41,7 @@ UniqueIds(nl) == Cardinality(Ids(nl)) = Len(nl.nodes)
 Closed(nl)    == /\ \A t \in Triples(nl) : t[1] \in Ids(nl) /\ t[3] \in Ids(nl)
                  /\ Froms(nl) \subseteq Ids(nl)
                  /\ Roots(nl) \subseteq Ids(nl)
+EdgeClosed(nl) == (\A t \in Triples(nl) : t[1] \in Ids(nl) /\ t[3] \in Ids(nl)) /\ Froms(nl) \subseteq Ids(nl)
 WellFormed(nl) == UniqueIds(nl) /\ Closed(nl)
 Normalised(nl) == /\ \A i, j \in DOMAIN nl.edges :
                         i # j => <<nl.edges[i].from, nl.edges[i].type>> # <<nl.edges[j].from, nl.edges[j].type>>
@@ -64,6 +65,9 @@ Restrict(T, I) == {t \in T : t[1] \in I /\ t[3] \in I}
 Same(a, b) == NodeSet(a) = NodeSet(b) /\ Triples(a) = Triples(b) /\ Roots(a) = Roots(b)
 \* cleanEdges: restrict to present nodes, merge by source and type, drop repeated targets
 Clean(nl) == FromViews(NodeSet(nl), Restrict(Triples(nl), Ids(nl)), Roots(nl))
+
+\* the same, also dropping root entries that name no node (what an intersection can retain at most)
+CleanStrict(nl) == FromViews(NodeSet(nl), Restrict(Triples(nl), Ids(nl)), Roots(nl) \cap Ids(nl))
 
 (* ------------------------ attribute algebra ---------------------------- *)
 Frozen == {"id", "type"}
@@ -186,6 +190,7 @@ NodeFILE == 1
 PurlOf(n) == IF n.type = NodeFILE THEN "" ELSE MapGet(n, "identifiers", 1)
 ByName(g, name) == {i \in DOMAIN g.nodes : Field(g.nodes[i], "name", "") = name}
 ByIdentifier(g, t, v) == {i \in DOMAIN g.nodes : MapHas(g.nodes[i], "identifiers", t) /\ MapGet(g.nodes[i], "identifiers", t) = v}
+NodesAt(g, I) == {g.nodes[i] : i \in I}
 RootNodeIdx(g) == {i \in DOMAIN g.nodes : g.nodes[i].id \in Roots(g)}
 
 \* node matching (documented rule of GetMatchingNode)
